@@ -631,6 +631,11 @@ def main():
         wrong = {v: f.result() for v, f in fut_w.items()}
         reuse_res = fut_r.result()
 
+    import atexit
+
+    all_runs = results + list(wrong.values()) + [reuse_res]
+    atexit.register(lambda: [r.cleanup() for r in all_runs])      # also on machinery failures: nothing stays in the scratch dir
+
     refuted = {}
     for v, r in wrong.items():
         r.cleanup()
